@@ -717,6 +717,9 @@ class Machine:
                 lo, hi = int_range(mm.group(1))
                 return lo if mm.group(2) == 'MIN' else hi
             f = self.funcs.get(n)
+            if f is None and '::' in n and '<' not in n:
+                g = self.funcs.get(n.split('::')[-1])     # trimmed path: the item is printed under its bare name
+                if g is not None and g.kind in ('constval', 'const'): f = g
             if f is not None and f.kind == 'constval': return self.const(f.value)
             if f is not None and f.kind in ('const',): return self.call(f, [])
             return FnItem(n)
